@@ -79,6 +79,9 @@ def run(ctx):
               "doc = x\n", "doc = INT\ndoc = x\n", "x = \n", "doc = *(a | b)\na = ?b INT\nb = IDENT | a\n", "doc = INT % doc ++ doc\n",
               "doc = *?INT\n", "doc = *(?IDENT)\n", "doc = +\"\"\n", "doc = INT => { return 1 }\n", "doc = INT | INT | \"x\" | IDENT\n"]:
         cases.append(("rules", t.encode()))
+    # left recursion hidden behind nullable prefixes: the compile verdict (RecursiveError) must agree with the model
+    for rules in tplm.leftrec_family():
+        cases.append(("hidden-leftrec", tplm.grammar_text(rules).encode()))
     nfixed = len(cases)
     # malformed grammar texts: C31's malformed stream + mutated structured grammars
     for t in g31.MISSING:
@@ -143,7 +146,7 @@ def run(ctx):
               rule="all 256 byte values in CHAR and STRING literals as \\xHH and \\OOO, printable ones also raw and in backquotes, raw "
                    "non-ASCII bytes; every spelling of the regenerated tokens table (%d) as \"s\", with last char doubled, truncated, "
                    "with a blank, and as 's'; odd literals; every identifier of the idents table, undefined ones; duplicate / "
-                   "self- / mutually-recursive rules; C31's missing-factor texts; seeded: mutated structured grammars, recursive "
+                   "self- / mutually-recursive rules; 160 grammars with left recursion hidden behind nullable prefixes; C31's missing-factor texts; seeded: mutated structured grammars, recursive "
                    "grammars, token soups, random bytes. non-trivial = distinct text outside the byte-literal family + the 256 byte "
                    "values." % len(spellings),
               outcome_histogram=outcome, category_histogram=hist, fixed_part=nfixed)
